@@ -776,6 +776,17 @@ impl Database {
                     );
                 }
                 let table = schema.get_table_mut(table_name).unwrap();
+                if table
+                    .columns()
+                    .iter()
+                    .any(|c| c.name().eq_ignore_ascii_case(new_name))
+                {
+                    bail!(
+                        "column '{}' already exists in table '{}'",
+                        new_name,
+                        table_name
+                    );
+                }
                 if !table.rename_column(old_name, new_name) {
                     bail!("column '{}' not found in table '{}'", old_name, table_name);
                 }
@@ -797,6 +808,17 @@ impl Database {
                 let table = schema.get_table_mut(table_name).unwrap();
                 let column = Self::ast_column_to_schema_column(col_def)?;
                 let col_name = column.name().to_string();
+                if table
+                    .columns()
+                    .iter()
+                    .any(|c| c.name().eq_ignore_ascii_case(&col_name))
+                {
+                    bail!(
+                        "column '{}' already exists in table '{}'",
+                        col_name,
+                        table_name
+                    );
+                }
                 table.add_column(column);
                 format!("added column '{}'", col_name)
             }
@@ -864,6 +886,11 @@ impl Database {
         let Some(drop_idx) = drop_idx else {
             return Ok(format!("column '{}' does not exist (skipped)", column_name));
         };
+        ensure!(
+            old_columns.len() > 1,
+            "cannot drop the only column of table '{}'",
+            table_name
+        );
 
         for index_name in &indexes_to_drop {
             let mut file_manager_guard = self.shared.file_manager.write();
